@@ -28,6 +28,21 @@ pub struct StoreCfg {
     /// create the device as a zero-length file (store sizes it) instead of a zero-filled one
     pub create_empty_file: bool,
     pub allow_ambiguous: bool,
+    /// 0: the store's synchronous write path; 1: batch writes go through the simulated io_uring;
+    /// 2: simulated io_uring with O_DIRECT behaviour (aligned buffers, alignment enforced)
+    #[serde(default)]
+    pub ring: u8,
+}
+
+/// Ring mode of a scenario, drawn from a tape of its own so that every other choice of the
+/// generators stays what it was before the simulated ring existed.
+pub fn gen_ring(seed: u64) -> u8 {
+    let mut t = crate::tape::Tape::fresh(crate::tape::mix(seed, 0x0121_96));
+    match t.below(8) {
+        0 | 1 => 1,
+        2 => 2,
+        _ => 0,
+    }
 }
 
 impl Default for StoreCfg {
@@ -43,6 +58,7 @@ impl Default for StoreCfg {
             sweeper: None,
             create_empty_file: false,
             allow_ambiguous: false,
+            ring: 0,
         }
     }
 }
